@@ -73,6 +73,23 @@ class Renderer:
                     3: "set -o pipefail" if on else "set +o pipefail",
                     4: "shopt -s inherit_errexit" if on else "shopt -u inherit_errexit",
                     5: "set -E" if on else "set +E"}[n["n"]]
+        # fault leaves (C18): each fails part-way in a different layer
+        if t == "f_in":
+            return "cat < /nonexistent_dir/in%d" % i
+        if t == "f_out":
+            return "echo x > /nonexistent_dir/out%d" % i
+        if t == "f_cmd":
+            return "nosuchcmd_zz%d" % i
+        if t == "f_sub":
+            return "echo ${x%d!}" % i
+        if t == "f_ro":
+            return "RO=%d" % i
+        if t == "f_tmp":
+            return "V%d=1 FF %d" % (i, i)
+        if t == "f_tmpro":
+            return "RO=%d M %d 0" % (i, i)
+        if t == "f_redirfn":
+            return "FR %d" % i
         if t == "us":
             return ": $nope%d" % i
         if t == "fe":
